@@ -108,7 +108,7 @@ def run_check(prop, tier):
             print("KNOWN-FINDING: property=%s %s %s -- %s" % (prop, o["rule"], o["key"], kf[k].get("what", o["detail"])))
         else:
             violations.append(o)
-    evdir = os.path.join(VERIF, "evidence")
+    evdir = os.environ.get("HX_EVIDENCE") or os.path.join(VERIF, "evidence")
     os.makedirs(evdir, exist_ok=True)
     vpath = os.path.join(evdir, prop + ".violations.json")
     if violations:
